@@ -270,12 +270,31 @@ class Analyser:
         return out
 
 
+def norm_via(via):
+    """`a op= b` reaches the operator through one more forwarding frame than `a = a op b`; both are the same
+    operation, so the assigning frame is folded into the plain one"""
+    out = []
+    for v in via:
+        if v.endswith("_assign") and v[:-7] in ("add", "sub", "mul", "div", "rem", "shl", "shr", "bitand", "bitor", "bitxor"):
+            v = v[:-7]
+        if v not in out:
+            out.append(v)
+    return out
+
+
+def normalise_key(k):
+    if " | via " not in k:
+        return k
+    head, via = k.rsplit(" | via ", 1)
+    return head + " | via " + "+".join(norm_via(via.split("+")))
+
+
 def site_key(s):
     k = s["fn"] + " | " + s["kind"]
     if s.get("msg"):
         k += " | " + s["msg"]
     if s.get("via"):
-        k += " | via " + "+".join(s["via"])
+        k += " | via " + "+".join(norm_via(s["via"]))
     return k
 
 
